@@ -16,6 +16,10 @@ pub fn case(ctx: &mut Ctx, cfg: &Cfg, data: &[u8], kind: &str, sink: Sink, tiny:
     for c in &run.calls { ctx.count(&format!("flush_{}", c.flush)); if c.chunk == 0 { ctx.count("empty_chunks"); } if c.out == 1 { ctx.count("one_byte_out"); } }
     for (cl, m) in &run.problems { ctx.violation(id, cl, format!("{} [{}] calls={}", m, cfg.describe(), calls_summary(&run.calls)), replay.clone()); }
     ctx.sample(format!("{} kind={} len={} sink={} calls=[{}] out_len={}", cfg.describe(), kind, data.len(), if sink == Sink::Callback { "cb" } else { "buf" }, calls_summary(&run.calls), run.out.len()));
+    if sink == Sink::Buf && !run.stg.is_empty() && run.stg.len() < 4000 && run.problems.is_empty() {
+        ctx.count_n("stg_calls", run.stg.len() as u64);
+        ctx.line(&format!("STG id={} rp=SCHED;sink=0;tiny={};seed={};inkey=full {} calls={} full={}", id, tiny as u8, seed, cfg.describe(), run.stg.join(";"), hex(data)));
+    }
     if run.done {
         ctx.line(&format!("ENC id={} rp=SCHED;sink={};tiny={};seed={} checks={} modes={} {} in={} comp={}", id, (sink == Sink::Callback) as u8, tiny as u8, seed, checks, cfg.modes(), cfg.describe(), hex(data), hex(&run.out)));
     }
@@ -71,6 +75,13 @@ fn boundary_case(ctx: &mut Ctx, cfg: &Cfg, data: &[u8], at: usize, flush: u8, sm
     let upto = at.min(data.len());
     let input: &[u8] = if flush == 4 { &data[..upto] } else { data };
     let mut c = cfg.make();
+    let _ = c.verif_take_trace();
+    let mut stg: Vec<String> = vec![];
+    let stg_of = |c: &mut miniz_oxide::deflate::core::CompressorOxide, out_len: usize, fl: u8, st: i32, cout: usize| -> String {
+        let evs = c.verif_take_trace();
+        let blocks: Vec<String> = evs.iter().filter(|e| e[0] == 1).map(|e| format!("{}.{}.{}.{}", e[3], e[4], e[6] as i64, e[1])).collect();
+        format!("{}:{}:{}:{}:{}", out_len, fl, st, cout, if blocks.is_empty() { "-".to_string() } else { blocks.join(",") })
+    };
     let mut z: Vec<u8> = vec![];
     let mut ipos = 0usize;
     let mut bad = None;
@@ -80,6 +91,7 @@ fn boundary_case(ctx: &mut Ctx, cfg: &Cfg, data: &[u8], at: usize, flush: u8, sm
         let (st, i, w) = compress(&mut c, &input[..upto], &mut o, flush_of(flush));
         (st, i, w, o)
     }));
+    if let Ok((st, _, w, _)) = &r { let l = stg_of(&mut c, small, flush, *st as i32, *w); stg.push(l); }
     let mut done = false;
     match r { Ok((st, i, w, o)) => { z.extend_from_slice(&o[..w]); ipos += i; if st == TDEFLStatus::Done { done = true; } else if st != TDEFLStatus::Okay { bad = Some(format!("first call {:?}", st)); } }
               Err(_) => { bad = Some("panic in the boundary call".into()); } }
@@ -88,11 +100,13 @@ fn boundary_case(ctx: &mut Ctx, cfg: &Cfg, data: &[u8], at: usize, flush: u8, sm
         for _ in 0..1000 {
             let mut o = vec![0u8; 100_000];
             let r = std::panic::catch_unwind(std::panic::AssertUnwindSafe(|| compress(&mut c, &input[ipos..], &mut o, TDEFLFlush::Finish)));
+            if let Ok((st, _, w)) = &r { let l = stg_of(&mut c, 100_000, 4, *st as i32, *w); stg.push(l); }
             match r { Ok((st, i, w)) => { z.extend_from_slice(&o[..w]); ipos += i; if st == TDEFLStatus::Done { done = true; break; } if st != TDEFLStatus::Okay { bad = Some(format!("finish loop {:?}", st)); break; } }
                       Err(_) => { bad = Some("panic while finishing".into()); break; } }
         }
     }
     if let Some(m) = bad { ctx.violation(id, "panic", format!("{} [{}] at={} flush={} out={}", m, cfg.describe(), at, flush, small), replay); return; }
+    ctx.line(&format!("STG id={} rp=BOUNDARY;at={};flush={};small={};inkey=full {} calls={} full={}", id, at, flush, small, cfg.describe(), stg.join(";"), hex(data)));
     if !done { ctx.violation(id, "progress", format!("not finished [{}] at={}", cfg.describe(), at), replay); return; }
     ctx.line(&format!("ENC id={} rp=BOUNDARY;at={};flush={};small={} checks=rt modes=- {} in={} comp={}", id, at, flush, small, cfg.describe(), hex(input), hex(&z)));
 }
